@@ -762,20 +762,34 @@ func (ob *SuObject) Slice(n int) Container {
 // Find returns the key of the first occurrence of the value else False.
 // Lock to avoid object-modified-during-iteration.
 func (ob *SuObject) Find(val Value) Value {
+	if k, ok := ob.find(val); ok {
+		return k
+	}
+	return False
+}
+
+// Has returns whether the object contains the value.
+// Unlike Find it is not confused by a value stored under the key false.
+func (ob *SuObject) Has(val Value) bool {
+	_, ok := ob.find(val)
+	return ok
+}
+
+func (ob *SuObject) find(val Value) (Value, bool) {
 	ob.RLock()
 	defer ob.RUnlock()
 	for i, v := range ob.list {
 		if v.Equal(val) {
-			return IntVal(i)
+			return IntVal(i), true
 		}
 	}
 	named := ob.named.Iter()
 	for k, v, ok := named(); ok; k, v, ok = named() {
 		if v.Equal(val) {
-			return k
+			return k, true
 		}
 	}
-	return False
+	return nil, false
 }
 
 // ArgsIter is similar to Iter2 but it returns a nil key for list elements
